@@ -536,8 +536,83 @@ def run_check(tier, seed):
                 if bad_cells or raw_bad:
                     prop_fail.append(('C18:blocks:wrong-place', 'block (rows 1-2, cols from %d) of a variable with inner dimension %d: elements read back %s ; raw bytes at the specified offsets %s'
                                       % (c0, inner, bad_cells[:3], raw_bad[:3]), desc))
-        n_elem += n_blk
-        log('[S4] blocks: %d multi-row requests across 2^31 / 2^32 inner dimensions in %.1fs' % (n_blk, t3.s()))
+        # ---------------- stream nbwide: several INTERLEAVING nonblocking requests (one strided column request each) completed by one
+        # wait, on a variable whose rows are 2 GiB / 4 GiB apart: the flattened offset-length pairs are sorted and merged in
+        # ncmpio_wait.c with 64-bit offsets; a comparison that truncates to int mis-orders pairs >= 2^31 bytes apart and the
+        # merge then drops them.  Spec = row-major addressing; oracle = get_var1 of every element + raw bytes in the file.
+        n_nbw = 0
+        for (fmtw, rows, ncol, rstride, xt, mt, xsz) in ((5, 2**20 + 2**19 + 8, 1024, 2**19, 'int', 'int', 4), (2, 2**21 + 8, 256, 2**21 // 4, 'int', 'int', 4),
+                                                          (5, 2**22 + 4, 512, 2**22 // 3, 'short', 'short', 2)):
+            for direction in ('iput', 'iget'):
+                name = 'c18nbw_%d.nc' % n_nbw
+                nreq, cnt = 3, 4
+                L = ['1 * create %s %d clobber -' % (name, fmtw), '2 * def_dim r %d' % rows, '3 * def_dim c %d' % ncol, '4 * def_var pad int 1 c',
+                     '5 * def_var v %s 2 r c' % xt, '6 * enddef', '7 * inq_varoffset v']
+                st = 8
+                cells, vals = [], {}
+                val = 1
+                for j in range(nreq):
+                    for k in range(cnt):
+                        cells.append((k * rstride, j)); vals[(k * rstride, j)] = val; val += 1
+                if direction == 'iput':
+                    for j in range(nreq):
+                        L.append('%d * iput q%d vars v %s c 0,%d %d,1 %d,1 - : %s' % (st, j, mt, j, cnt, rstride, ' '.join(str(vals[(k * rstride, j)]) for k in range(cnt)))); st += 1
+                    L.append('%d * waitall c ALL' % st); st += 1
+                    L.append('%d * sync' % st); st += 1
+                    g0 = st
+                    for (r, c) in cells:
+                        L.append('%d * get var1 c v %s c %d,%d - - -' % (st, mt, r, c)); st += 1
+                else:
+                    for (r, c) in cells:
+                        L.append('%d * put var1 c v %s c %d,%d - - - : %d' % (st, mt, r, c, vals[(r, c)])); st += 1
+                    L.append('%d * sync' % st); st += 1
+                    g0 = st
+                    for j in range(nreq):
+                        L.append('%d * iget g%d vars v %s c 0,%d %d,1 %d,1 -' % (st, j, mt, j, cnt, rstride)); st += 1
+                    wstep = st
+                    L.append('%d * waitall c GET' % st); st += 1
+                L.append('%d * close' % st)
+                script = os.path.join(wd, 'nbw_%d.txt' % os.getpid())
+                open(script, 'w').write('\n'.join(L) + '\n')
+                rc, impl, err = apicmp.run_impl(bexe, script, 1, wd, timeout=300, alarm=120)
+                n_nbw += 1
+                desc = dict(stream='nbwide', script='\n'.join(L), rc=rc, out=[l[:200] for l in impl[-20:]])
+                begin, got = None, {}
+                for l in impl:
+                    t = l.split()
+                    if t[0] == '7':
+                        begin = int(t[4])
+                    if direction == 'iput' and t[2] == 'get' and g0 <= int(t[0]) < g0 + len(cells):
+                        got[cells[int(t[0]) - g0]] = t[-1] if t[3] == '0' else 'err' + t[3]
+                    if direction == 'iget' and t[2] == 'waitall' and int(t[0]) == wstep:
+                        # "0 | g0 gap=ok : a b c d | g1 ..." -> values per request in posting order
+                        segs = l.split(' | ')[1:]
+                        for j, sg in enumerate(segs):
+                            vv = sg.split(' : ')[1].split() if ' : ' in sg else []
+                            for k, x in enumerate(vv):
+                                got[(k * rstride, j)] = x
+                bad_cells = [(c, got.get(c), vals[c]) for c in cells if got.get(c) != str(vals[c])]
+                raw_bad = []
+                fpath = os.path.join(wd, name)
+                try:
+                    if begin is not None:
+                        with open(fpath, 'rb') as fh:
+                            for (r, c) in cells:
+                                off = begin + (r * ncol + c) * xsz
+                                fh.seek(off)
+                                bts = fh.read(xsz)
+                                if int.from_bytes(bts, 'big', signed=True) != vals[(r, c)]:
+                                    raw_bad.append((off, bts.hex(), vals[(r, c)]))
+                    os.unlink(fpath)
+                except OSError as ex:
+                    raw_bad.append(('io', str(ex), 0))
+                bump('nbwide:%s:fmt%d' % (direction, fmtw))
+                distinct.add('nbwide %d %d %s' % (rows, ncol, direction))
+                if rc != 0 or begin is None or bad_cells or raw_bad:
+                    prop_fail.append(('C18:nbwide:wrong-or-missing', 'interleaving nonblocking column requests (%s) on rows %d bytes apart: rc=%s, elements %s ; raw bytes %s'
+                                      % (direction, rstride * ncol * xsz, rc, bad_cells[:3], raw_bad[:3]), desc))
+        n_elem += n_blk + n_nbw
+        log('[S4] blocks: %d multi-row requests across 2^31 / 2^32 inner dimensions, %d interleaved nonblocking request sets on rows >= 2 GiB apart in %.1fs' % (n_blk, n_nbw, t3.s()))
         V.cov['evaluations'] = len(dlines) + n_def + n_elem
         V.cov['distinct_nontrivial'] = len(distinct)
         V.cov['traces_validated_against_impl'] = len(dlines) + n_def + n_elem - len(tie_diffs)
